@@ -18,12 +18,14 @@
 EXTENDS Render
 
 CONSTANTS MaxLen, LexL, LexE   \* concrete lexemes for the L and E classes (chosen from the shipped tables)
+CONSTANTS LexLR, LexDR          \* the names of the LicenseRef / DocumentRef tokens ("a" / "d"; also operator words: a reference
+                                \* may be NAMED AND, OR or WITH and is still a reference, never an operator)
 
 VARIABLE vToks
 
 Classes == {"L", "E", "LR", "DR", ":", "(", ")", "AND", "OR", "WITH", "+"}
 ValOf(c) == IF c = "L" THEN LexL ELSE IF c = "E" THEN LexE
-            ELSE IF c = "LR" THEN "a" ELSE IF c = "DR" THEN "d" ELSE c
+            ELSE IF c = "LR" THEN LexLR ELSE IF c = "DR" THEN LexDR ELSE c
 
 Init == vToks = <<>>
 Next == /\ Len(vToks) < MaxLen
@@ -40,7 +42,7 @@ Codes == [cc \in Classes |-> cc]
 RECURSIVE CodeFrom(_, _)
 CodeFrom(t, n) == IF n > Len(t) THEN "" ELSE (IF n = 1 THEN "" ELSE " ") \o t[n].c \o CodeFrom(t, n + 1)
 
-Emit == /\ vToks = <<>> => PrintT(ToJson([k |-> "cfg", maxlen |-> MaxLen, lexL |-> LexL, lexE |-> LexE]))
+Emit == /\ vToks = <<>> => PrintT(ToJson([k |-> "cfg", maxlen |-> MaxLen, lexL |-> LexL, lexE |-> LexE, lexLR |-> LexLR, lexDR |-> LexDR]))
         /\ PAccepts(vToks) => PrintT(ToJson([k |-> "acc", t |-> CodeFrom(vToks, 1)]))
 
 \* the L and E lexemes must be plain list ids that the scanner reads as themselves
